@@ -58,6 +58,9 @@ type Sched struct {
 	Release string   `json:"release"` // "barrier": all goroutines are released at once (channel close); "spin": they also spin until all have arrived; "stagger": goroutine g yields g*Lag times first
 	Lag     int      `json:"lag,omitempty"`
 	Yield   []string `json:"yield"` // per goroutine, per call (cyclic): '0' none, '1' Gosched before, '2' after, '3' both
+	// SlowGraph (fork choice only): pause inside every call the wrapper makes into its graph during the concurrent
+	// phase: 0 none, 1 Gosched, 2 sleep 40us, 3 sleep 300us
+	SlowGraph int `json:"slow_graph,omitempty"`
 }
 
 type Case struct {
@@ -193,6 +196,10 @@ func runConcurrent(c *Case, w world) *outcome {
 	t0 := time.Now()
 	start := make(chan struct{})
 	var wg sync.WaitGroup
+	if a, ok := w.(interface{ arm(int) }); ok {
+		a.arm(c.Sched.SlowGraph)
+		defer a.arm(0)
+	}
 	for g := 0; g < G; g++ {
 		o.recs[g] = make([]rec, len(c.Threads[g]))
 		wg.Add(1)
